@@ -55,17 +55,24 @@ TIME_LIMIT = {"quick": 55, "thorough": 300}
 
 SANITIZER_PLAN = {
     # property -> tier -> list of stages
-    "quick": {"C13": ["miri"], "C14": ["miri"]},
+    "quick": {
+        "C01": ["explore"], "C02": ["explore"], "C03": ["explore"], "C04": ["explore"], "C05": ["explore"], "C06": ["explore"],
+        "C07": ["explore"], "C08": ["explore"], "C10": ["explore"], "C11": ["explore"],
+        "C13": ["explore", "miri"], "C14": ["explore", "miri"],
+    },
     "thorough": {
-        "C01": ["release", "miri", "asan"],
-        "C02": ["release", "miri"],
-        "C03": ["release", "asan"],
-        "C04": ["release"],
-        "C05": ["release", "tsan", "miri"],
-        "C06": ["release", "miri", "asan"],
-        "C07": ["release", "asan"],
-        "C13": ["release", "miri", "asan"],
-        "C14": ["release", "miri", "asan"],
+        "C01": ["explore", "release", "miri", "asan"],
+        "C02": ["explore", "release", "miri"],
+        "C03": ["explore", "release", "asan"],
+        "C04": ["explore", "release"],
+        "C05": ["explore", "release", "tsan", "miri"],
+        "C06": ["explore", "release", "miri", "asan"],
+        "C07": ["explore", "release", "asan"],
+        "C13": ["explore", "release", "miri", "asan"],
+        "C14": ["explore", "release", "miri", "asan"],
+        "C08": ["explore"],
+        "C10": ["explore"],
+        "C11": ["explore"],
         "C15": ["release"],
     },
 }
@@ -285,6 +292,9 @@ def replay(path, harness, repo):
             "--seed", str(rec.get("seed", 0)), "--idx", str(rec.get("idx", 0)), "--events"]
     if rec.get("small"):
         argv.append("--small")
+    sc = rec.get("script") or ""
+    if sc.startswith("explore:"):
+        argv += ["--script", sc[len("explore:"):] or ","]
     log("replaying: " + " ".join(argv))
     p = subprocess.run(argv, env=ENV_BASE)
     return p.returncode
@@ -359,6 +369,22 @@ def run_sanitizer_stage(st, prop, tier, seed, root, harness, repo, nproc, work):
             outs.append(out)
         # cargo needs to run in the workspace
         return run_shards_cwd(cmds, envs, outs, tl + 240, harness)
+    if st == "explore":
+        ok, msg = build_plain(harness, repo)
+        if not ok:
+            log(msg)
+            return None
+        tl = 20 if tier == "quick" else 240
+        bound = 2 if tier == "quick" else 3
+        ncfg = 6400 if tier == "quick" else 64000
+        for i in range(nproc):
+            out = os.path.join(work, "explore_%02d.json" % i)
+            cmds.append([bin_path(harness), "run", "--prop", prop, "--tier", tier, "--seed", str(seed + 4000), "--shard", str(i),
+                         "--nshards", str(nproc), "--out", out, "--time-limit", str(tl), "--explore", "--bound", str(bound),
+                         "--max-runs", "3000" if tier == "quick" else "30000", "--max-cases", str(ncfg)])
+            envs.append({})
+            outs.append(out)
+        return run_shards(cmds, envs, outs, tl + 180, "explore")
     if st == "release":
         ok, msg = build_plain(harness, repo, release=True)
         if not ok:
@@ -615,7 +641,7 @@ def conclude(prop, tier, seed, root, stages, t_start, evid_path):
                 continue
             seen.add(sig)
             rec = dict(property=prop, key=v["key"], message=v["msg"], idx=v.get("idx", 0), seed=v.get("seed", seed), tier=v.get("tier", tier),
-                       small=bool(v.get("small")), case=v.get("case"), mode=v.get("mode"), schedule_picks=v.get("picks"), stage=v.get("stage", "plain"),
+                       small=bool(v.get("small")), case=v.get("case"), mode=v.get("mode"), schedule_picks=v.get("picks"), script=v.get("script", ""), stage=v.get("stage", "plain"),
                        log_tail=v.get("log_tail", ""), replay_cmd="/verif/vcheck replay <this file>")
             path = write_replay(root, prop, rec)
             log("  %s [%s/%s] %s" % (prop, v.get("stage"), v["key"], v["msg"][:400]))
@@ -643,4 +669,4 @@ def progress_idx(progress):
 
 
 def shard_seed(stage, seed):
-    return {"asan": seed + 1000, "tsan": seed + 2000, "release": seed + 3000}.get(stage, seed)
+    return {"asan": seed + 1000, "tsan": seed + 2000, "release": seed + 3000, "explore": seed + 4000}.get(stage, seed)
